@@ -31,6 +31,13 @@ def skeleton(kind, content):
                 b'#..file: encoding=utf-8, k=v1\n#...meta: length=14\n{"path": "b"}\n')
     if kind == 'last-diff':
         return HEAD + b'#.change:\n#..file:\n#...meta: length=3\n{}\n#...diff: length=%d\n' % n, b''
+    if kind == 'diff-crlf':
+        # every header line of the file ends in CRLF; the content is framed by length alone
+        return ((HEAD + b'#.change: y=100\n#..file: encoding=latin-1\n#...meta: length=4\n{}\r\n#...diff: length=%d\n' % n).replace(b'\n', b'\r\n').replace(b'\r\r', b'\r'),
+                b'#..file: k=v1\r\n#...meta: length=15\r\n{"path": "b"}\r\n')
+    if kind == 'change-preamble':
+        return (HEAD + b'#.change: encoding=utf-16-le\n#..preamble: encoding=latin-1, length=%d\n' % n,
+                b'#..meta: encoding=utf-8, format=json, length=3\n{}\n#..file: encoding=ascii\n#...meta: length=3\n{}\n')
     raise ValueError(kind)
 
 
@@ -183,9 +190,9 @@ def ob_length(ctx, N):
 
 def obligations(tier):
     quick = tier == 'quick'
-    N = 3 if quick else 6
+    N = 3 if quick else 8
     obs = []
-    for kind in ('preamble', 'diff', 'last-diff'):
+    for kind in ('preamble', 'diff', 'last-diff') + (() if quick else ('diff-crlf', 'change-preamble')):
         obs.append(Ob('truncate[%s]' % kind, ob_truncate, dict(kind=kind, N=N), must_reach=['DiffXReader._read_content'],
                       path_timeout=8, desc='real reader on F[:p] for every cut point p; F has a symbolic %s section; '
                       'records must be a prefix of the intact file\'s records, then end or DiffXParseError' % kind,
@@ -208,7 +215,7 @@ def validate(tier):
     def run(d):
         recs, err = _read(d)
         return [[(r['section'], r.get('text'), r.get('diff')) for r in recs], type(err).__name__ if err else None]
-    for kind in ('preamble', 'diff', 'last-diff'):
+    for kind in ('preamble', 'diff', 'last-diff', 'diff-crlf', 'change-preamble'):
         for c in (b'a\n', b' x\n', b'a\nb\n', b'\r\n'):
             pre, post = skeleton(kind, c)
             F = pre + c + post
